@@ -59,6 +59,8 @@ def _worker_init():
     logging.disable(logging.NOTSET)
     import warnings
     warnings.filterwarnings("ignore")
+    import gc
+    gc.freeze()
 
 
 def repo_head():
